@@ -185,3 +185,6 @@ package coins
 //@   # a ticker in use has a current (version 0) coin
 //@   ensures version == 0 && symTaken(c, symbol) ==> result != nil
 //@   modifies coinsCache
+
+//@ # ---------------------------------------------------------------- lock discipline (C25)
+//@ guarded Coins.list, Coins.dirty, Coins.symbolsList, Coins.symbolsInfoList by lock
